@@ -4284,10 +4284,16 @@ impl ZonedRound {
         let start = zdt.start_of_day().with_context(move || {
             err!("failed to find start of day for {zdt}")
         })?;
+        // N.B. The end of this day is the start of the next civil day, which
+        // is not necessarily one calendar day after the start of this day.
+        // e.g., When this day starts at 01:00 because of a gap at midnight.
         let end = start
-            .checked_add(Span::new().days_ranged(C(1).rinto()))
+            .datetime()
+            .date()
+            .tomorrow()
+            .and_then(|date| date.to_zoned(zdt.time_zone().clone()))
             .with_context(|| {
-                err!("failed to add 1 day to {start} to find length of day")
+                err!("failed to find start of the day after {start}")
             })?;
         let span = start
             .timestamp()
